@@ -279,35 +279,40 @@ impl<'a> Walk<'a> {
         // namespaces used in the subtree, and those with no declaration at all on the inner path
         let mut used: BTreeSet<String> = BTreeSet::new();
         let mut unbound_inside: BTreeSet<String> = BTreeSet::new();
-        fn rec(n: &ANode, path_decls: &mut Vec<String>, used: &mut BTreeSet<String>, unbound: &mut BTreeSet<String>) {
+        // namespaces of attribute names that no NON-EMPTY prefix declared inside the subtree binds
+        let mut attr_unbound: BTreeSet<String> = BTreeSet::new();
+        fn rec(n: &ANode, path_decls: &mut Vec<(String, String)>, used: &mut BTreeSet<String>, unbound: &mut BTreeSet<String>, attr_unbound: &mut BTreeSet<String>) {
             if n.kind == AKind::Elem {
                 let k = n.decls.len();
-                for (_, u) in &n.decls {
-                    path_decls.push(u.clone());
+                for (p, u) in &n.decls {
+                    path_decls.push((p.clone(), u.clone()));
                 }
-                let mut names: Vec<&QName> = vec![&n.name];
-                names.extend(n.attrs.iter().map(|(q, _)| q));
-                for q in names {
+                let mut names: Vec<(&QName, bool)> = vec![(&n.name, false)];
+                names.extend(n.attrs.iter().map(|(q, _)| (q, true)));
+                for (q, is_attr) in names {
                     if !q.ns.is_empty() && q.ns != XML_NS {
                         used.insert(q.ns.clone());
-                        if !path_decls.contains(&q.ns) {
+                        if !path_decls.iter().any(|(_, u)| *u == q.ns) {
                             unbound.insert(q.ns.clone());
+                        }
+                        if is_attr && !path_decls.iter().any(|(p, u)| !p.is_empty() && *u == q.ns) {
+                            attr_unbound.insert(q.ns.clone());
                         }
                     }
                 }
                 for c in &n.children {
-                    rec(c, path_decls, used, unbound);
+                    rec(c, path_decls, used, unbound, attr_unbound);
                 }
                 for _ in 0..k {
                     path_decls.pop();
                 }
             } else {
                 for c in &n.children {
-                    rec(c, path_decls, used, unbound);
+                    rec(c, path_decls, used, unbound, attr_unbound);
                 }
             }
         }
-        rec(a, &mut Vec::new(), &mut used, &mut unbound_inside);
+        rec(a, &mut Vec::new(), &mut used, &mut unbound_inside, &mut attr_unbound);
         let x = &*self.xot;
         let un = match guard(|| x.unresolved_namespaces(h).into_iter().map(|n| x.namespace_str(n).to_string()).collect::<Vec<_>>()) {
             Ok(v) => v,
@@ -358,6 +363,20 @@ impl<'a> Walk<'a> {
                 return;
             }
         }
+        // an attribute can only use a non-empty prefix: where the parent scope offers one for a namespace an
+        // attribute of the subtree needs, the inherited set must offer one too
+        for u in &attr_unbound {
+            if pb.iter().any(|(p, n)| n == u && !p.is_empty()) && !inh.iter().any(|(p, n)| n == u && !p.is_empty()) {
+                self.bad(
+                    "inherited_prefixes",
+                    "misses-the-prefixed-binding-an-attribute-needs",
+                    "subtree",
+                    a,
+                    format!("an attribute in {:?} has no prefixed binding inside the subtree, the parent scope has one ({:?}), the inherited set has none ({:?})", u, pb, inh),
+                );
+                return;
+            }
+        }
         self.ctx.count("inherited_prefixes.checked");
     }
 
@@ -399,6 +418,49 @@ impl<'a> Walk<'a> {
     }
 }
 
+/// 17-24 prefixes declared on one element in random order and redeclared, in another order and for other
+/// namespaces, one or two levels down: scope walks that collect more than 16 prefixes
+fn many_prefix_layout(rng: &mut Rng) -> ANode {
+    let k = rng.range(17, 24);
+    let uris = [gen::NS_A, gen::NS_B, gen::NS_C, "urn:m:1", "urn:m:2", "urn:m:3"];
+    let mut order: Vec<usize> = (0..k).collect();
+    let level = |rng: &mut Rng, order: &mut Vec<usize>, share: usize| -> Vec<(String, String)> {
+        rng.shuffle(order);
+        order.iter().take(share).map(|i| (format!("m{}", i), uris[rng.below(uris.len())].to_string())).collect()
+    };
+    let name_in = |rng: &mut Rng, decls: &[(String, String)], local: &str| -> QName {
+        if decls.is_empty() || rng.chance(1, 4) {
+            QName::plain(local)
+        } else {
+            QName::new(&decls[rng.below(decls.len())].1, local)
+        }
+    };
+    let d0 = level(rng, &mut order, k);
+    let n1 = rng.range(1, k);
+    let d1 = level(rng, &mut order, n1);
+    let n2 = rng.range(0, 6);
+    let d2 = level(rng, &mut order, n2);
+    let mut leaf = ANode::elem(name_in(rng, &d0, "leaf"));
+    leaf.decls = d2;
+    for j in 0..rng.range(0, 3) {
+        let q = QName::new(&d0[rng.below(d0.len())].1, &format!("k{}", j));
+        if !leaf.attrs.iter().any(|(n, _)| *n == q) {
+            leaf.attrs.push((q, "v".into()));
+        }
+    }
+    let mut mid = ANode::elem(name_in(rng, &d1, "mid"));
+    mid.decls = d1;
+    mid.children = vec![leaf, ANode::elem(name_in(rng, &d0, "sib"))];
+    let mut root = ANode::elem(name_in(rng, &d0, "root"));
+    root.decls = d0;
+    root.children = vec![mid, ANode::text("t")];
+    if rng.bool() {
+        ANode::doc(vec![root])
+    } else {
+        root
+    }
+}
+
 impl Monitor for C09 {
     fn id(&self) -> &'static str {
         "C09"
@@ -411,7 +473,7 @@ impl Monitor for C09 {
         vec![Stream::new("forced-layouts", forced().len() as u64 * 4), Stream::new("random-layouts", scaled(n, budget))]
     }
     fn rule(&self) -> String {
-        "trees with arbitrary declaration layouts (0-3 declarations per element from a pool of 5 prefixes + default and 6 namespaces: several prefixes per namespace, a prefix rebound deeper down, shadowing next to unshadowed bindings, default declared / redeclared / undeclared, names with and without usable prefix) built through the creation API as documents, fragments and parentless subtrees; at EVERY node (elements, attribute nodes, one namespace node per element, leaves) namespaces_in_scope, namespace_for_prefix and is_prefix_defined for 8 prefixes, prefix_for_namespace for 7 namespaces, unresolved_namespaces / inherited_prefixes per element, and node_name_ref / name_ref / full_name of every element and attribute node are compared with a nearest-declaration-wins walk over the abstract tree. Non-trivial = tree with >= 2 declarations; distinct by structural hash".into()
+        "trees with arbitrary declaration layouts (0-3 declarations per element from a pool of 5 prefixes + default and 6 namespaces: several prefixes per namespace, a prefix rebound deeper down, shadowing next to unshadowed bindings, default declared / redeclared / undeclared, names with and without usable prefix) ; one tree in twelve declares 17-24 prefixes on one element in random order and redeclares them deeper down in another order) built through the creation API as documents, fragments and parentless subtrees; at EVERY node (elements, attribute nodes, one namespace node per element, leaves) namespaces_in_scope, namespace_for_prefix and is_prefix_defined for 8 prefixes, prefix_for_namespace for 7 namespaces, unresolved_namespaces / inherited_prefixes per element, and node_name_ref / name_ref / full_name of every element and attribute node are compared with a nearest-declaration-wins walk over the abstract tree (inherited_prefixes must also offer a prefixed binding wherever an attribute of the subtree needs one and the parent scope has one). In half of the cases a second phase follows: subtrees are detached or moved and declaration nodes removed directly (not through namespaces_mut), and every query is asked again on the trees as read back by the low-level accessors, so that an answer remembered from the first phase shows. Non-trivial = tree with >= 2 declarations; distinct by structural hash".into()
     }
     fn floors(&self, _tier: Tier) -> Vec<(&'static str, u64)> {
         vec![
@@ -422,6 +484,8 @@ impl Monitor for C09 {
             ("qualified_name.error_justified", 500),
             ("inherited_prefixes.checked", 10_000),
             ("feature.shadowing", 1_000),
+            ("many_prefix_layouts", 2_000),
+            ("requeried_after_scope_change", 10_000),
         ]
     }
     fn assumptions(&self) -> Vec<String> {
@@ -445,7 +509,14 @@ impl Monitor for C09 {
             cfg.str_len = 2;
             cfg.fragment = rng.chance(1, 4);
             cfg.max_children = 3;
-            if rng.chance(1, 3) { gen::gen_element(rng, &cfg) } else { gen::gen_document(rng, &cfg) }
+            if !crate::engine::legs_mode() && rng.chance(1, 12) {
+                ctx.count("many_prefix_layouts");
+                many_prefix_layout(rng)
+            } else if rng.chance(1, 3) {
+                gen::gen_element(rng, &cfg)
+            } else {
+                gen::gen_document(rng, &cfg)
+            }
         };
         let mut ndecl = 0;
         let mut shadow = false;
@@ -489,9 +560,70 @@ impl Monitor for C09 {
                 return;
             }
         };
-        let mut w = Walk { xot: &mut xot, ctx, root: &a, failed: false };
-        let mut scope = Scope::new();
-        w.node(&a, &built, &mut scope);
+        let failed = {
+            let mut w = Walk { xot: &mut xot, ctx, root: &a, failed: false };
+            let mut scope = Scope::new();
+            w.node(&a, &built, &mut scope);
+            w.failed
+        };
+        // second phase: every answer has been asked for once; now change scopes WITHOUT going through namespaces_mut
+        // (move or detach subtrees, remove declaration nodes directly) and ask again on the trees as they are now
+        if !failed && rng.chance(1, 2) {
+            let elems: Vec<Node> = built.flat().into_iter().filter(|n| xot.is_element(*n)).collect();
+            let mut roots: Vec<Node> = vec![built.node];
+            let mut log: Vec<String> = Vec::new();
+            for _ in 0..rng.range(1, 2) {
+                if elems.is_empty() {
+                    break;
+                }
+                let e = elems[rng.below(elems.len())];
+                match rng.below(3) {
+                    0 => {
+                        if xot.parent(e).is_some() && guard(|| xot.detach(e)).map(|r| r.is_ok()).unwrap_or(false) {
+                            log.push(format!("detach({})", crate::driver::describe(&xot, e)));
+                            roots.push(e);
+                        }
+                    }
+                    1 => {
+                        let t = elems[rng.below(elems.len())];
+                        let inside = t == e || xot.ancestors(t).any(|n| n == e);
+                        if !inside && xot.parent(e).is_some() && guard(|| xot.append(t, e)).map(|r| r.is_ok()).unwrap_or(false) {
+                            log.push(format!("append({}, {})", crate::driver::describe(&xot, t), crate::driver::describe(&xot, e)));
+                        }
+                    }
+                    _ => {
+                        let nss: Vec<Node> = xot.namespaces(e).nodes().collect();
+                        if !nss.is_empty() {
+                            let n = nss[rng.below(nss.len())];
+                            let d = crate::driver::describe(&xot, n);
+                            if guard(|| xot.remove(n)).map(|r| r.is_ok()).unwrap_or(false) {
+                                log.push(format!("remove({}) on {}", d, crate::driver::describe(&xot, e)));
+                            }
+                        }
+                    }
+                }
+            }
+            if !log.is_empty() {
+                for r in roots {
+                    if xot.is_removed(r) || xot.parent(r).is_some() {
+                        continue;
+                    }
+                    let sn = match snap::snap(&xot, r) {
+                        Ok(s) => s,
+                        Err(_) => continue,
+                    };
+                    let before = ctx.violations_so_far();
+                    let mut w = Walk { xot: &mut xot, ctx, root: &sn.tree, failed: false };
+                    let mut scope = Scope::new();
+                    w.node(&sn.tree, &sn.handles, &mut scope);
+                    if ctx.violations_so_far() > before {
+                        ctx.annotate_last(&format!("after the scope-changing calls {:?} on a tree whose answers had been asked for before", log));
+                        break;
+                    }
+                }
+                ctx.count("requeried_after_scope_change");
+            }
+        }
         ctx.sample(|| J::obj().set("tree", a.to_json()));
     }
 }
